@@ -5,7 +5,8 @@ Driver for C12. One case:
 
 `(call <fn|method|pred> (params (a) (b 8) …) (pos <arg>…) (kw (name <arg>)…) (doms (0 1 2 3) (1 4) …) (pre 0 …)
   (neg T|F) (body <salt> <modulus>) (knobs (is_expensive T) …) (hist ((oid state)…) …) …)` with `<arg>` =
-`(l <value>)`, `(v <variable id>)` or `(a <accessor> <variable id>)` (`x.att`, `x.get()`, `x.items[0]`, …: the value
+`(l <value>)`, `(l <value> <variant>)` (an `==`-equal but different constant, see `showVal`; the body adds the variant
+to the value), `(v <variable id>)` or `(a <accessor> <variable id>)` (`x.att`, `x.get()`, `x.items[0]`, …: the value
 passed is `state + 100·accessor`). Candidate objects are identified by a number (printed in `rows`); their state —
 what accessors and the body read, printed in `log` — starts equal to it and is overwritten by each world of `hist`
 before the same query object is evaluated again; the evaluations are printed joined by ` ;; `.
@@ -28,6 +29,7 @@ def codeQuirks : Quirks := { symFnIgnoresFirst := false, childVarsIndependent :=
 
 def parseArg : Sexp → Option Arg
   | .list [.atom "l", v] => v.asNat?.map Arg.lit
+  | .list [.atom "l", v, t] => do pure (Arg.lit ((← v.asNat?) + 1000 * (← t.asNat?)))
   | .list [.atom "v", i] => i.asNat?.map (fun i => Arg.var i 0)
   | .list [.atom "a", k, i] => do pure (Arg.var (← i.asNat?) (← k.asNat?))
   | _ => none
@@ -48,8 +50,13 @@ def parseDom : Sexp → Option (Nat × List Nat)
     pure (i, vs)
   | _ => none
 
+/-- A written constant is identified by `number + 1000·variant`: constants with the same number and different
+variants are `==`-equal in Python but are different objects / types (`1`, `1.0`, `True`, two equal tuples, two
+value-equal user objects). The model passes the written constant itself; it is printed `number~variant`. -/
+def showVal (v : Nat) : String := if v < 1000 then toString v else s!"{v % 1000}~{v / 1000}"
+
 def showArg : Arg → String
-  | .lit v => toString v
+  | .lit v => showVal v
   | .var i 0 => s!"?{i}"
   | .var i k => s!"?{i}.{k}"
 
@@ -63,13 +70,13 @@ def showOutcome (body : List Nat → Nat) : Outcome → String
     "C " ++ showTuple (t.map showArg) ++ (if r != 0 then " T" else " F")
   | .symbolic (.error _) => "S exc:TypeError"
   | .symbolic (.ok o) =>
-    "S log=" ++ showList (sortStrings (o.log.map (fun t => showTuple (t.map toString))))
+    "S log=" ++ showList (sortStrings (o.log.map (fun t => showTuple (t.map showVal))))
       ++ " rows=" ++ showList (sortStrings (dedupStrings (o.rows.map (fun t => showTuple (t.map toString)))))
 
 def mkBody (salt m : Nat) : List Nat → Nat := fun t =>
   let rec go : Nat → List Nat → Nat
     | _, [] => 0
-    | j, v :: r => (j + 1) * v + go (j + 1) r
+    | j, v :: r => (j + 1) * (v % 1000 + v / 1000) + go (j + 1) r
   (salt + go 0 t) % m
 
 /-- `((oid state) …)`: the states of the mutated candidates, every other candidate keeps state = identity -/
